@@ -357,6 +357,9 @@ func TestConcurrentDerive(t *testing.T) {
 	rt.Check(t, 150, 30000, func(t *rapid.T) {
 		st := setup{kind: rapid.IntRange(0, 2).Draw(t, "handler")}
 		sink := &lm.Sink{}
+		if rapid.Bool().Draw(t, "destinationTakesWritesInPieces") {
+			sink.Piece = rapid.SampledFrom([]int{1, 7, 16, 64}).Draw(t, "piece")
+		}
 		parentChain := []lm.Step{{With: []lm.Node{lm.GenNode(genOpts, 1).Draw(t, "p0")}}}
 		if rapid.Bool().Draw(t, "deeper") {
 			parentChain = append(parentChain, lm.Step{Group: "grp"}, lm.Step{With: []lm.Node{lm.GenNode(genOpts, 1).Draw(t, "p1")}})
@@ -414,6 +417,12 @@ func TestConcurrentDerive(t *testing.T) {
 		// the parents themselves must be unchanged as well
 		for r, parent := range parents {
 			lm.Emit(parent, 2, logger.LevelInfo, fmt.Sprintf("id-parent-r%d", r), nil)
+		}
+		if sink.Torn > 0 {
+			t.Fatalf("%s: %d records reached a destination that takes each Write in pieces with the bytes of a record logged through a sibling or the parent in between; each of these loggers used alone delivers its lines whole (parent chain %s)", st, sink.Torn, lm.RenderChain(parentChain))
+		}
+		if sink.Piece > 0 {
+			ev.Label("concurrent:destination_takes_writes_in_pieces")
 		}
 		got := map[string][]byte{}
 		for _, w := range sink.Writes {
